@@ -340,12 +340,16 @@ func c20Body(sc *C20Script, res *Result) {
 	}
 	// expected values from the API objects
 	pcs := map[string]int32{}
+	defaultPrio := int32(50) // documented fallback: the class named, else the cluster's global default class, else 50
 	for _, pc := range api.PriorityClasses() {
 		pcs[pc.Name] = pc.Value
+		if pc.GlobalDefault {
+			defaultPrio = pc.Value
+		}
 	}
 	pgAgg := map[string]*c20Agg{}
 	for _, g := range api.PodGroups() {
-		prio := int32(50)
+		prio := defaultPrio
 		if v, ok := pcs[g.Spec.PriorityClassName]; ok {
 			prio = v
 		}
